@@ -269,6 +269,7 @@ class Interp:
         self.summaries = summaries if summaries is not None else {}     # name or 'dep:x' -> callable(interp, state, args, inst) -> value
         self.budget = budget; self.steps = 0; self.max_steps = max_steps
         self.accesses = []       # (function, loc, obj, offset, size, kind) concrete accesses bounds-checked
+        self.oob = []            # concrete out-of-bounds accesses: (location, load/store, object, offset, bytes, object size, partition described by affine constraints only)
         self.null_derefs = []    # (location, load/store, last opaque conditions, partition described by affine constraints only)
         self.aborts = []         # partitions that ended in a noreturn call (failed assertion in assertion-enabled builds)
         self.nofork = 0          # mask of input bits that must not be partitioned on (e.g. an unknown string length)
@@ -365,6 +366,7 @@ class Interp:
         if ok: ACCESS_LOG.add((base_name(inst.fn.name), inst.loc))
         if not ok:
             st.events.append(('out-of-bounds', inst.loc, obj, off, n, size))
+            self.oob.append((inst.loc, kind, obj, off, n, size, not st.cons.opaque))
             raise Unmodelled('out-of-bounds %s of %d bytes at offset %d of %s (size %d) at %s' % (kind, n, off, obj, size, inst.loc))
         return obj, off
 
